@@ -15,6 +15,13 @@ BRIDGE = [
     ('check_prog', 'ext_check_prog = check_prog', 'reflexivity.'),
     ('transition_prog', 'ext_transition_prog = transition_prog', 'reflexivity.'),
 ]
+
+
+def K_ALL_KINDS(ctx):
+    """thorough tier: the exhaustive enumerations are evaluated in the kernel as well, not only by extraction"""
+    return (2,) if ctx.thorough else ()
+
+
 ASSUMPTIONS = ['requests on operators of the pipelines given (in range); Python run without -O']
 
 # the documented machine, written here from the property text (independent of the model)
